@@ -363,7 +363,7 @@ func C06() int {
 		"head×4 (plain, with condition, keeplast), tail×2, sort×3, top, rare, bin×2 (with and without span), streamstats×4, eventstats×2, makemv, mvexpand, stats×5; parsed by the real SPL parser, built by AggsToDataProcessors) " +
 		"× tables of ≤ n rows over a 6-row alphabet × every composition of the rows into successive batches, with EOF-with-data and an " +
 		"inserted empty batch, output must equal the single-batch output " +
-		"(as a sequence unless the chain contains stats/top/rare). Parallel chains: the same commands and pairs with the chains built by the real SetupQueryParallelism for 2 (thorough: 3) " +
+		"(as a sequence unless the chain contains stats/top/rare). Parallel chains: the same commands and pairs with the chains built by the real SetupQueryParallelism for 2 and - for pairs ending in an aggregation, in thorough for all pairs - 3 " +
 		"processors, rows distributed over the chains in every way × {one batch per chain, one row per batch}, output must equal the single-chain output. non-trivial = ≥2 batches (or 2 streams) and a command with cross-batch state"
 	rep.Assume = []string{"input order = table order; column b is unique and increasing, so sort keys have no ties", "no storage involved: harness Streamer feeds the first processor"}
 	pool := logPool()
@@ -429,7 +429,9 @@ func C06() int {
 					}
 					for _, t := range fixed {
 						emit(c06Job{Chain: []string{c1.Text, c2.Text}, Table: t, NStream: 1, Parallel: 2})
-						if rep.Tier == "thorough" {
+						// three chains: in thorough for every pair; in quick for the pairs that end in an aggregation (a chain
+						// whose rows are all filtered out, or lack the measured column, then sits between two others)
+						if rep.Tier == "thorough" || strings.HasPrefix(c2.Text, "stats ") || strings.HasPrefix(c2.Text, "top ") || strings.HasPrefix(c2.Text, "rare ") {
 							emit(c06Job{Chain: []string{c1.Text, c2.Text}, Table: t, NStream: 1, Parallel: 3})
 						}
 					}
